@@ -303,7 +303,13 @@ def rule_io(ctx):
                    '%s does not produce a total order of the interleaving positions' % last)
 
 
+def rule_wr(ctx):
+    """the combinator methods wire the new stage to `self` and forward what they were given"""
+    K.api_wiring(ctx, 'WR', floor=15)
+
+
 def run(ctx):
+    rule_wr(ctx)
     rule_io(ctx)
     rule_r1(ctx)
     rule_r2(ctx)
